@@ -9,7 +9,7 @@ W=/tmp/vw-$P-$L
 git -C /repo worktree remove --force $W 2>/dev/null; rm -rf $W
 git -C /repo worktree add -q --detach $W HEAD || exit 2
 CMD=$(jq -r .demo_cmd "$SRC/$L.meta.json")
-CMD=$(echo "$CMD" | sed -E "s#<repo>#$W#g; s#<worktree>#$W#g; s#/tmp/wt[0-9]*-[A-Z0-9]+#$W#g; s#cp ([A-X]\.demo[_a-z.]*go)#cp $SRC/\1#")
+CMD=$(echo "$CMD" | sed -E "s#<repo>#$W#g; s#<worktree>#$W#g; s#/tmp/wt[0-9]*-[A-Z0-9]+#$W#g; s#cp ([A-Z]+\.demo[_a-z.]*go)#cp $SRC/\1#")
 res() { echo "$1"; }
 cd $W
 clean=$(bash -c "$CMD" 2>&1 | tail -3 | grep -c "^ok")
